@@ -10,7 +10,7 @@ cd "$wt" && git apply "$out/patch.diff" || { echo "APPLY-FAIL"; exit 1; }
 export GOPROXY=off
 (cd "$wt" && go build ./... ) && (cd "$wt/cmd/atlas" && go build ./...) && echo "build: ok" || { echo "build: FAIL"; exit 1; }
 [ -n "$t1" ] && { (cd "$wt" && go test -vet=off -count=1 $t1 >/tmp/confirm.log 2>&1) && echo "existing tests (root): pass" || { echo "existing tests (root): FAIL"; tail -5 /tmp/confirm.log; }; }
-[ -n "$t2" ] && { (cd "$wt/cmd/atlas" && go test -vet=off -count=1 $t2 >/tmp/confirm.log 2>&1) && echo "existing tests (cmd/atlas): pass" || { echo "existing tests (cmd/atlas): FAIL"; tail -5 /tmp/confirm.log; }; }
+[ -n "$t2" ] && { (cd "$wt/cmd/atlas" && GIT_CONFIG_GLOBAL=/dev/null go test -vet=off -count=1 $t2 >/tmp/confirm.log 2>&1) && echo "existing tests (cmd/atlas): pass" || { echo "existing tests (cmd/atlas): FAIL"; tail -5 /tmp/confirm.log; }; }
 cp "$out/demo_test.go" "$wt/$pkg/zz_seeded_demo_test.go"
 (cd "$wt/$mod" && go test -vet=off -count=1 -run 'Seeded' ./${pkg#$mod/}/ >/tmp/confirm.log 2>&1) && echo "demo with patch: PASS (unexpected)" || echo "demo with patch: FAIL (expected)"
 git -C "$wt" checkout -q -- . 
